@@ -44,7 +44,7 @@ ASSUMPTIONS = [
     "solo reference = one conversion in a fresh interpreter with PYTHONHASHSEED=0",
 ]
 BOUND = {
-    "quick": "seeds 0..47; histories depth<=3 over 8 forms (cold) + depth<=2 (warm); regen depth<=3 x 4 ops x 10 forms; schedules: 6 pairs cold + 1 warm, <=1 preemption at the first occurrence of every distinct line of either thread, bound 0 both orders",
+    "quick": "seeds 0..47; histories depth<=3 over 8 forms (cold) + depth<=2 (warm); regen depth<=3 x 4 ops x 10 forms; schedules: 6 pairs cold + 1 warm, <=1 preemption at the first occurrence of every distinct (line, caller, caller's caller) of either thread, bound 0 both orders",
     "thorough": "seeds 0..127; histories depth<=3 cold and warm; schedules: all unordered pairs of the 11 driver forms incl. self-pairs, cold and warm, <=1 preemption at the first and last occurrence of every distinct line, and at every line point for the 7 collision-prone pairs (cold); 3-thread one-preemption for 2 triples; 2 preemptions at call granularity for 4 pairs (location-deduplicated)",
 }
 
@@ -292,13 +292,13 @@ def solo_trace(name, warm):
     return _TRACE[key]
 
 
-def dedup_ks(trace, both=False):
+def dedup_ks(trace, both=False, chain=True):
     """preemption indices deduplicated by code location: first (and optionally last) occurrence of every distinct line"""
     first, last = {}, {}
     for k, loc in enumerate(trace, 1):
         # the same line reached through another caller chain (two frames up) is another point: shared helpers such as the
         # expression scanner are entered from several places, and only some of them use what a racing thread can clobber
-        key = (loc[0], loc[1], *loc[3:5])
+        key = (loc[0], loc[1], *loc[3:5]) if chain else (loc[0], loc[1])
         first.setdefault(key, k)
         last[key] = k
     return sorted(set(first.values()) | (set(last.values()) if both else set()))
@@ -360,7 +360,7 @@ def blocks(tier):
             elif (a, b) in QUICK_PAIRS and not warm:
                 ks = list(range(1, len(tr) + 1))  # every line point for the collision-prone pairs (cold caches)
             else:
-                ks = dedup_ks(tr, both=True)  # first and last occurrence of every distinct line
+                ks = dedup_ks(tr, both=True, chain=False)  # first and last occurrence of every distinct line
             for i in range(0, len(ks), 150):
                 yield ("sched", [a, b], warm, first, ks[i:i + 150])
         yield ("sched0", [a, b], warm)
